@@ -348,7 +348,9 @@ PROPS["C04"] = _loop("fifo",
     "C04_executed_once, C04_refused_never_executed, C04_accept_iff_not_terminated, C04_no_lost_wakeup / C04_blocked_with_work_has_waker (a loop "
     "blocked in select with queued work always has a waker on its way), C04_terminate_runs_all_accepted; progress form: C04_head_progress "
     "(every run-thread step other than serving a timer job, and every delivered wake-up, strictly decreases a lexicographic measure of a "
-    "queued function until it has run or the loop is leaving), C04_other_threads_keep, C04_blocked_is_woken, C04_measure_well_founded",
+    "queued function until it has run or the loop is leaving), C04_other_threads_keep, C04_blocked_is_woken, C04_measure_well_founded; "
+    "slice level: C04_buffers_* (auxJobs / auxJobsSpare with backing arrays and capacities refine the model's two lists in every reachable "
+    "state: batch and queue never share an array, the entry called is never nil, clearing a slot and appending never touch the other list)",
     _LOOP_RULE % ("", ""), ["SpecFail3", "SpecFail8", "Implaccepted-function-left-waiting", "Implstuck"],
     ["submission ids are pairwise distinct (one per call)"])
 PROPS["C05"] = _loop("timers",
